@@ -5,17 +5,30 @@
 use crate::{sigfam::FAMILY, util};
 use injectorpp::interface::injector::*;
 use std::panic::{catch_unwind, AssertUnwindSafe};
+use std::sync::atomic::{AtomicBool, Ordering};
+
+/// the context an installation is attempted in: on an ordinary thread, or from a destructor that runs while the thread is
+/// unwinding from an earlier panic (a fixture tearing down after a failed assertion): the gates must not depend on it
+static UNWINDING: AtomicBool = AtomicBool::new(false);
+struct InDrop<F: FnOnce()>(Option<F>);
+impl<F: FnOnce()> Drop for InDrop<F> { fn drop(&mut self) { if let Some(f) = self.0.take() { f() } } }
+fn in_context<F: FnOnce()>(f: F) {
+    if UNWINDING.load(Ordering::SeqCst) {
+        let _ = catch_unwind(AssertUnwindSafe(|| { let _g = InDrop(Some(f)); panic!("the earlier panic"); }));
+    } else { f() }
+}
 
 fn attempt<F: FnOnce(&mut InjectorPP)>(taddr: u64, f: F) -> char {
     let before = util::read16(taddr);
     let mut during = before;
-    let r = catch_unwind(AssertUnwindSafe(|| {
+    let mut r: std::thread::Result<()> = Ok(());
+    in_context(|| { r = catch_unwind(AssertUnwindSafe(|| {
         let mut inj = InjectorPP::new();
         let rr = catch_unwind(AssertUnwindSafe(|| f(&mut inj)));
         during = util::read16(taddr);
         drop(inj);
         if let Err(e) = rr { std::panic::resume_unwind(e) }
-    }));
+    })); });
     let after = util::read16(taddr);
     match r {
         Ok(()) => if after == before { 'A' } else { 'R' },            // R = accepted but not restored
@@ -34,6 +47,12 @@ async fn af_unit() {}
 pub fn main(_args: &[String]) {
     std::panic::set_hook(Box::new(|_| {}));
     for m in FAMILY { println!("NAME {} {}", m.name, (m.tname)()); }
+    all("");
+    UNWINDING.store(true, Ordering::SeqCst);
+    all("@unwinding");
+}
+
+fn all(ctx: &str) {
     for (form, getter) in [("func", 0usize), ("arm", 1), ("closure", 2), ("fake", 3), ("unchecked_fake", 4), ("unchecked_target", 5), ("both_unchecked", 6)] {
         for t in FAMILY {
             let mut row = String::new();
@@ -49,7 +68,7 @@ pub fn main(_args: &[String]) {
                 };
                 row.push(c);
             }
-            println!("ROW {form} {} {row}", t.name);
+            println!("ROW {form}{ctx} {} {row}", t.name);
         }
     }
     // null pointers, boolean gate
@@ -63,24 +82,27 @@ pub fn main(_args: &[String]) {
     for t in FAMILY { ub.push(attempt((t.taddr)(), |inj| unsafe { inj.when_called_unchecked((t.unchecked_target)()).will_return_boolean(true) })); }
     let mut ub2 = String::new();
     for t in FAMILY { ub2.push(attempt((t.taddr)(), |inj| inj.when_called((t.unchecked_target)()).will_return_boolean(true))); }
-    println!("BOOLGATE_UNCHECKED {ub}");
-    println!("BOOLGATE_UNCHECKED_SAFEFORM {ub2}");
-    println!("NULLFAKE {nulls}");
-    println!("BOOLGATE {bools}");
-    let nt = catch_unwind(|| unsafe { FuncPtr::new(std::ptr::null(), "fn()") });
-    println!("NULLTARGET {}", match nt { Ok(_) => "A".into(), Err(e) => util::classify(&util::panic_msg(&e)).to_string() });
+    println!("BOOLGATE_UNCHECKED{ctx} {ub}");
+    println!("BOOLGATE_UNCHECKED_SAFEFORM{ctx} {ub2}");
+    println!("NULLFAKE{ctx} {nulls}");
+    println!("BOOLGATE{ctx} {bools}");
+    let mut nt = Ok(None);
+    in_context(|| { nt = catch_unwind(|| Some(unsafe { FuncPtr::new(std::ptr::null(), "fn()") })); });
+    println!("NULLTARGET{ctx} {}", match nt { Ok(_) => "A".into(), Err(e) => util::classify(&util::panic_msg(&e)).to_string() });
     // async gate: output type of the faked async fn vs type of the value
     macro_rules! arow { ($name:expr, $fut:expr, $ty:ty) => {{
         let mut row = String::new();
         macro_rules! cell { ($val:expr, $vty:ty) => {{
-            let r = catch_unwind(AssertUnwindSafe(|| { let mut inj = InjectorPP::new(); inj.when_called_async(injectorpp::async_func!($fut, $ty)).will_return_async(injectorpp::async_return!($val, $vty)); }));
+            let mut r = Ok(());
+            in_context(|| { r = catch_unwind(AssertUnwindSafe(|| { let mut inj = InjectorPP::new(); inj.when_called_async(injectorpp::async_func!($fut, $ty)).will_return_async(injectorpp::async_return!($val, $vty)); })); });
             row.push(match r { Ok(()) => 'A', Err(e) => match util::classify(&util::panic_msg(&e)) { "sig" => 'S', _ => 'O' } });
         }} }
         cell!(7u32, u32); cell!(7u64, u64); cell!(String::new(), String); cell!((), ());
-        println!("ASYNC {} {row}", $name);
+        println!("ASYNC{ctx} {} {row}", $name);
     }} }
     arow!("u32", af_u32(), u32); arow!("u64", af_u64(), u64); arow!("string", af_string(), String); arow!("unit", af_unit(), ());
     // an async pointer from the unchecked macro against a checked target
-    let r = catch_unwind(AssertUnwindSafe(|| { let mut inj = InjectorPP::new(); inj.when_called_async(injectorpp::async_func!(af_u32(), u32)).will_return_async(unsafe { injectorpp::async_return_unchecked!(7u32, u32) }); }));
-    println!("ASYNC_UNCHECKED_FAKE {}", match r { Ok(()) => "A".into(), Err(e) => util::classify(&util::panic_msg(&e)).to_string() });
+    let mut r = Ok(());
+    in_context(|| { r = catch_unwind(AssertUnwindSafe(|| { let mut inj = InjectorPP::new(); inj.when_called_async(injectorpp::async_func!(af_u32(), u32)).will_return_async(unsafe { injectorpp::async_return_unchecked!(7u32, u32) }); })); });
+    println!("ASYNC_UNCHECKED_FAKE{ctx} {}", match r { Ok(()) => "A".into(), Err(e) => util::classify(&util::panic_msg(&e)).to_string() });
 }
